@@ -58,9 +58,10 @@ type Stub struct {
 }
 
 type fnInfo struct {
-	idx  map[ssa.Value]int
-	n    int
-	live *liveInfo
+	idx     map[ssa.Value]int
+	n       int
+	live    *liveInfo
+	intRegs []bool
 }
 
 type Deferred struct {
@@ -163,6 +164,7 @@ type Engine struct {
 	B *TB
 
 	cellW   []int
+	cellInt []bool // cell holds a Go integer (subject to range clamping)
 	cellObj []*Obj
 	objs    []*Obj
 
@@ -199,6 +201,7 @@ type Engine struct {
 	ExploreFaults bool
 	DebugTypes    bool
 	AppendBound   func(fn *ssa.Function) int
+	IntBound      int // Go integers in the modelled state stay within [-2, IntBound] (unwinding obligation)
 	FaultKinds    map[string]bool
 	MaxFuel       int
 
@@ -349,10 +352,65 @@ func (e *Engine) newObj(lay []int, kind ObjKind, label string) *Obj {
 	}
 	for _, w := range lay {
 		e.cellW = append(e.cellW, w)
+		e.cellInt = append(e.cellInt, false)
 		e.cellObj = append(e.cellObj, o)
 	}
 	e.objs = append(e.objs, o)
 	return o
+}
+
+// LayoutKinds marks which cells of a type's layout are Go integers.
+func (e *Engine) LayoutKinds(T types.Type) []bool {
+	switch t := T.Underlying().(type) {
+	case *types.Basic:
+		n := len(e.Layout(T))
+		k := make([]bool, n)
+		if t.Kind() == types.Int && n == 1 {
+			k[0] = true
+		}
+		return k
+	case *types.Struct:
+		var k []bool
+		for i := 0; i < t.NumFields(); i++ {
+			k = append(k, e.LayoutKinds(t.Field(i).Type())...)
+		}
+		return k
+	case *types.Array:
+		var k []bool
+		el := e.LayoutKinds(t.Elem())
+		for i := int64(0); i < t.Len(); i++ {
+			k = append(k, el...)
+		}
+		return k
+	case *types.Slice:
+		return []bool{false, true, true}
+	}
+	return make([]bool, len(e.Layout(T)))
+}
+
+// SetObjType records the element type of an object and marks integer cells.
+func (e *Engine) SetObjType(o *Obj, T types.Type) {
+	o.Typ = T
+	k := e.LayoutKinds(T)
+	if len(k) == 0 {
+		return
+	}
+	for i := 0; i < o.Size; i++ {
+		e.cellInt[o.Base-AddrBase+i] = k[i%len(k)]
+	}
+}
+
+// clampInt bounds an integer term to the configured range; values outside
+// raise the unwinding obligation through `raise`.
+func (e *Engine) clampInt(t *Term, raise func(c *Term)) *Term {
+	if e.IntBound <= 0 || t.W == 0 {
+		return t
+	}
+	r, out := e.B.ClampSigned(t, -2, int64(e.IntBound))
+	if !out.IsFalse() {
+		raise(out)
+	}
+	return r
 }
 
 func (e *Engine) ObjAt(addr uint64) *Obj {
@@ -505,6 +563,13 @@ func (e *Engine) allocPool(p *Path, key string, lay []int, kind ObjKind, label s
 		return pl.Slots[i]
 	}
 	cnt := p.Load(e, pl.Cnt)
+	if !cnt.IsConst() {
+		lim := bound
+		if lim < 1 {
+			lim = 1
+		}
+		cnt, _ = e.B.ClampSigned(cnt, 0, int64(lim))
+	}
 	p.Store(e, pl.Cnt, e.B.Add(cnt, e.B.BV(8, 1)))
 	zero := func(base int, cond *Term) {
 		for i, w := range lay {
@@ -858,7 +923,7 @@ func (e *Engine) MakeIface(p *Path, T types.Type, v Value, site string) Value {
 		return Value{tag, B.BV(64, 0)}
 	}
 	// box
-	ptr := e.allocPool(p, "box|"+site, lay, ObjPlain, "box:"+T.String(), 1, func(o *Obj) { o.Typ = T })
+	ptr := e.allocPool(p, "box|"+site, lay, ObjPlain, "box:"+T.String(), 1, func(o *Obj) { e.SetObjType(o, T) })
 	e.StoreVal(p, ptr, v)
 	return Value{tag, ptr}
 }
@@ -1085,6 +1150,7 @@ func (e *Engine) ConfigKey(c *Ctx) string {
 func (e *Engine) park(p *Path) bool {
 	c := p.Cur
 	e.pruneDead(c)
+	e.clampRegs(p, c)
 	return e.endCurrent(p, ParkRec{Pid: c.Pid, Key: e.ConfigKey(c), Ctx: c})
 }
 
@@ -1143,6 +1209,32 @@ func (e *Engine) runPath(p *Path) {
 		}
 		if !e.step(p, instr) {
 			return
+		}
+	}
+}
+
+// clampRegs applies the integer range bound to live integer registers.
+func (e *Engine) clampRegs(p *Path, c *Ctx) {
+	if e.IntBound <= 0 {
+		return
+	}
+	for _, f := range c.Frames {
+		fi := e.info(f.Fn)
+		if fi.intRegs == nil {
+			fi.intRegs = make([]bool, fi.n)
+			for v, i := range fi.idx {
+				if b, ok := v.Type().Underlying().(*types.Basic); ok && b.Kind() == types.Int {
+					fi.intRegs[i] = true
+				}
+			}
+		}
+		for i, r := range f.Regs {
+			if r != nil && fi.intRegs[i] && len(r) == 1 {
+				nr := e.clampInt(r[0], func(c *Term) { e.RaiseFlag(p, "unwind", c) })
+				if nr != r[0] {
+					f.Regs[i] = Value{nr}
+				}
+			}
 		}
 	}
 }
@@ -1329,13 +1421,13 @@ func (e *Engine) step(p *Path, instr ssa.Instruction) bool {
 			if e.PoolBound != nil {
 				bound = e.PoolBound(fr.Fn, in)
 			}
-			ptr = e.allocPool(p, e.siteKey(p, in, "new"), lay, ObjPlain, in.Comment+":"+T.String(), bound, func(o *Obj) { o.Typ = T })
+			ptr = e.allocPool(p, e.siteKey(p, in, "new"), lay, ObjPlain, in.Comment+":"+T.String(), bound, func(o *Obj) { e.SetObjType(o, T) })
 		} else {
 			key := e.siteKey(p, in, fmt.Sprintf("local%d", len(c.Frames)))
 			pl := e.pools[key]
 			if pl == nil {
 				o := e.newObj(lay, ObjPlain, "local:"+in.Comment)
-				o.Typ = T
+				e.SetObjType(o, T)
 				pl = &Pool{Slots: []int{o.Base}}
 				e.pools[key] = pl
 			}
@@ -1784,7 +1876,7 @@ func (e *Engine) allocArray(p *Path, elem types.Type, n int, key string, bound i
 	for i := 0; i < n; i++ {
 		lay = append(lay, el...)
 	}
-	return e.allocPool(p, fmt.Sprintf("%s|n%d", key, n), lay, ObjPlain, "array:"+elem.String(), bound, func(o *Obj) { o.Typ = elem })
+	return e.allocPool(p, fmt.Sprintf("%s|n%d", key, n), lay, ObjPlain, "array:"+elem.String(), bound, func(o *Obj) { e.SetObjType(o, elem) })
 }
 
 // clampTree maps every leaf above max to max (used only after the path guard
